@@ -172,8 +172,6 @@ class SpatialDerivativesAffine:
             mg = {}
             if mode in ("forward", "backward", "central"):
                 mg[d] = 1
-            if mode in ("prewitt", "sobel"):
-                mg = {e: 1 for e in range(D) if e != d}  # smoothing across the other axes uses zero padding at the border
             sl = interior(shape, D, mg)
             K.ensure_eq(f"d/d{key}", K.val(res[key])[sl], want[sl], text=Q12 + " [first derivatives of affine data = gradient / spacing]")
         # subset request == entries of the full request
@@ -315,8 +313,6 @@ class FlowJacobian:
         mg = {}
         if mode in ("forward", "backward", "central"):
             mg = {d: 1 for d in range(D)}
-        if mode in ("prewitt", "sobel"):
-            mg = {d: 1 for d in range(D)}
         sl = interior(shape, D, mg)
         I = np.array([[E.ONE if i == j else E.ZERO for j in range(D)] for i in range(D)], dtype=object)
         if fn.startswith("jacobian_det"):
@@ -438,7 +434,7 @@ class LieBracket:
             for i in range(D):
                 want[(0, i) + idx] = E.sub(E.add(*[E.mul(Av[0][i, j], uvals[(0, j) + idx]) for j in range(D)]),
                                            E.add(*[E.mul(Au[0][i, j], vvals[(0, j) + idx]) for j in range(D)]))
-        mg = {d: 1 for d in range(D)} if mode in ("forward", "backward", "central", "sobel", "prewitt") else {}
+        mg = {d: 1 for d in range(D)} if mode in ("forward", "backward", "central") else {}
         sl = interior(shape, D, mg)
         K.ensure_eq("bracket", K.val(res)[sl], want[sl], text=Q12 + " [Lie bracket [v, u] = J_v u - J_u v]")
         K.ensure_eq("mustfail", K.val(res)[sl], np.frompyfunc(E.neg, 1, 1)(want)[sl], text="sign of the bracket", must_fail=True)
